@@ -209,8 +209,10 @@ def make_dest(kind, rng, net):
         h = rand_bytes(rng, rng.choice([20, 32]))
         return rb.encode_segwit(rb.NET_HRP[net], 0, h), bytes([0, len(h)]) + h
     if kind == "segwit1":
-        h = rand_bytes(rng, 32)
-        return rb.encode_segwit(rb.NET_HRP[net], 1, h), bytes([0x51, 32]) + h
+        # "segwit" recipients are every valid witness program: v1 with 32 bytes (taproot) and the other valid (version, length) pairs
+        ver, ln = rng.choice([(1, 32), (1, 32), (1, 20), (1, 2), (1, 40), (2, 32), (16, 2), (16, 40), (7, 33)])
+        h = rand_bytes(rng, ln)
+        return rb.encode_segwit(rb.NET_HRP[net], ver, h), bytes([0x50 + ver, ln]) + h
     if kind == "pubkey":
         pk = secp.sec1_encode(secp.pub(rng.randrange(1, N)), rng.random() < 0.5)
         return pk, bytes([len(pk)]) + pk + b"\xac"
